@@ -307,7 +307,9 @@ STR_ISOTOPE = (
     ("isotope()", "fraction-in-string", NEQ, "T.isotope('%s-%s' % (A + 0.9, sym))"),
     ("isotope()", "fraction-in-string", NEQ, "T.isotope('%d.5e0-%s' % (A, sym))"),
     ("isotope()", "number-with-suffix", NEQ, "T.isotope('%dx-%s' % (A, sym))"),
-    ("symbol()", "isotope-string", SPELL, "T.symbol(key)"), ("name()", "isotope-string", SPELL, "T.name(key)"),
+    # an 'A-Sym' string is a key of the isotope route only: no atom has it as its symbol or name ("the symbol, name ... of
+    # the object match the key used"), so symbol() and name() must raise rather than hand out the isotope
+    ("symbol()", "isotope-string", NEQ, "T.symbol(key)"), ("name()", "isotope-string", NEQ, "T.name(key)"),
 )
 STR_CONST = tuple((route, klass, NEQ, "T.%s(%s)" % (route[:-2], k))
                   for route in ("symbol()", "name()", "isotope()")
